@@ -480,6 +480,12 @@ func (s *Service) buildMetaData(msg service.DIDCommMsgMap, direction messageDire
 		return nil, fmt.Errorf("nextState: %w", err)
 	}
 
+	// the states pick the message form by the protocol version in the type, the options by the DIDComm version of
+	// the members: a message on which the two disagree cannot be processed
+	if isV2, e := service.IsDIDCommV2(&msg); e == nil && isV2 != (getVersion(msg.Type()) == SpecV3) {
+		return nil, fmt.Errorf("message type %s does not match the DIDComm version of the message", msg.Type())
+	}
+
 	if !current.CanTransitionTo(next) {
 		return nil, fmt.Errorf("invalid state transition: %s -> %s", current.Name(), next.Name())
 	}
